@@ -15,7 +15,7 @@ SIMPLE_CHILDREN = {'ok': 0.86, 'exit_late': 0.06, 'backoff_then_ok': 0.04, 'igno
 EVENTUALLY_OK_CHILDREN = {'ok': 0.84, 'exit_late_then_ok': 0.08, 'backoff_then_ok': 0.04, 'ignore_stop': 0.04}
 
 PROFILES = {
-    'C01': dict(BASE, max_faults=5, min_faults=1, ops='none', child_kinds=SIMPLE_CHILDREN,
+    'C01': dict(BASE, p_join_only=0.25, max_faults=5, min_faults=1, ops='none', child_kinds=SIMPLE_CHILDREN,
                 fault_weights={'crash': 2, 'restart': 4, 'partition': 3},
                 supvisors_failure_strategies=['CONTINUE', 'CONTINUE', 'RESYNC'], n_groups=[1, 2], n_programs=[1, 2, 3]),
     'C08': dict(BASE, max_faults=5, min_faults=1, ops='direct', max_ops=2, child_kinds=EVENTUALLY_OK_CHILDREN,
@@ -46,11 +46,11 @@ PROFILES = {
                 p_wait_exit=0.3, p_sequenced=0.95, max_seq=3, n_programs=[2, 3, 4, 4], n_groups=[1, 2, 3],
                 p_app_sequenced=0.9, max_app_seq=3, p_autostart=0.0, supvisors_failure_strategies=['CONTINUE'],
                 autorestart=['false']),
-    'C04': dict(BASE, no_restart_storm=True, max_faults=3, min_faults=0, ops={'start_application': 3, 'restart_application': 1,
+    'C04': dict(BASE, no_restart_storm=True, p_disable_in_handshake=0.6, p_heal_disable_burst=0.15, max_faults=3, min_faults=0, ops={'start_application': 3, 'restart_application': 1,
                                                          'start_process': 2, 'restart_process': 1, 'stop_application': 1,
                                                          'start_any_process': 1, 'disable': 0.5, 'enable': 0.5},
-                max_ops=8, fault_weights={'crash': 1, 'restart': 3, 'child_exit': 1},
-                loads=[0, 10, 20, 30, 40, 50, 60, 70], p_shared_node=0.6, p_absent=0.3, p_disabled=0.2,
+                max_ops=8, fault_weights={'crash': 1, 'restart': 3, 'child_exit': 1, 'partition': 2}, p_heal=1.0,
+                p_final_heal=1.0, loads=[0, 10, 20, 30, 40, 50, 60, 70], p_shared_node=0.6, p_absent=0.3, p_disabled=0.2,
                 n_inst=[2, 3, 4, 5], n_programs=[2, 3, 4], n_groups=[2, 3, 3], max_app_seq=1, p_app_sequenced=0.9,
                 child_kinds=SIMPLE_CHILDREN, p_numprocs=0.25, supvisors_failure_strategies=['CONTINUE']),
     'C14': dict(BASE, no_restart_storm=True, max_faults=2, min_faults=0, ops={'start_application': 4, 'restart_application': 1,
@@ -88,7 +88,7 @@ PROFILES = {
                 p_sequenced=0.9, max_seq=3, p_app_sequenced=0.9, max_app_seq=3, n_programs=[2, 3, 4], n_groups=[1, 2, 3],
                 p_managed=0.8, supvisors_failure_strategies=['CONTINUE'], p_autostart=0.1, autorestart=['false'],
                 need_timeout=True, p_absent=0.05, p_disabled=0.0),
-    'C10': dict(BASE, no_restart_storm=True, max_faults=4, min_faults=1,
+    'C10': dict(BASE, mix=[('P10', 0.2)], no_restart_storm=True, max_faults=4, min_faults=1,
                 ops={'start_application': 3, 'stop_application': 3, 'restart_application': 2, 'start_process': 2,
                      'stop_process': 2, 'restart_process': 1}, min_ops=2, max_ops=8,
                 fault_weights={'crash': 2, 'restart': 2, 'child_exit': 1, 'stall': 0.5}, p_trigger=0.5,
@@ -128,6 +128,14 @@ PROFILES = {
                 n_programs=[1, 2, 3], child_kinds=SIMPLE_CHILDREN, supvisors_failure_strategies=['CONTINUE'],
                 p_auto_fence=0.3, inactivity_ticks=[2, 3], hostile=0.0, window=(18.0, 140.0), quiesce=30.0,
                 n_events=(5, 30), n_samples=(40, 400), n_puppets=[1, 2, 2, 3]),
+    # puppet sub-profile used as a share of the C10 runs: requests left unanswered by scripted peers, programs removed
+    # from them while a request is pending, few conflicts (so that the real instance is mostly in OPERATION)
+    'P10': dict(builder='puppet', p_managed=0.9, p_numprocs=0.2, p_autostart=0.0, n_groups=[1, 2], n_programs=[2, 3],
+                child_kinds=SIMPLE_CHILDREN, supvisors_failure_strategies=['CONTINUE'], p_auto_fence=0.2,
+                conciliation_strategies=['SENICIDE', 'STOP', 'INFANTICIDE'], inactivity_ticks=[2, 3], hostile=0.0,
+                window=(25.0, 150.0), quiesce=90.0, n_events=(10, 40), n_real=[1], p_known=1.0,
+                weights={'event': 12, 'forced': 2, 'removed': 2, 'added': 3, 'down': 1, 'mute': 1, 'stealth': 0.5,
+                         'op': 8, 'op_remove': 12, 'tick': 0.5, 'state': 0.5}),
     'C02': dict(BASE, max_faults=6, ops='fsm', running_failure=gen.RUNNING_FAILURE + ['RESTART', 'SHUTDOWN'],
                 p_autostart=0.4, p_late_boot=0.4,
                 fault_weights={'crash': 2, 'restart': 3, 'partition': 2, 'stall': 1, 'slow': 1, 'clock_jump': 0.5,
@@ -144,7 +152,7 @@ def build(prop, seed):
     mix = prof.get('mix')
     if mix:
         # a share of the runs of a puppet profile are real clusters (another profile's scenario, this property's oracle)
-        r = random.Random(kernel.hash64(seed, 'mix')).random()
+        r = random.Random(kernel.hash64(seed, 'mix', prop)).random()
         acc = 0.0
         for base, share in mix:
             acc += share
@@ -161,7 +169,24 @@ def build(prop, seed):
     rng = random.Random(kernel.hash64(seed, 'gen'))
     config = gen.gen_config(rng, prof)
     plan = gen.gen_boots(rng, prof, config)
-    plan += gen.gen_faults(rng, prof, config)
+    if rng.random() < prof.get('p_join_only', 0.0) and len(config['instances']) >= 3:
+        # join-only run: nothing but boots and slow (directed) links, the last joiner being the instance the election
+        # rule prefers (lowest nick, or a core member) and hearing the established Master late
+        nicks_ = sorted(s_['nick'] for s_ in config['instances'])
+        core_ = config['supvisors'].get('core_identifiers') or []
+        joiner = gen.pick(rng, [nicks_[0], nicks_[0]] + list(core_[:1]) + [gen.pick(rng, nicks_)])
+        t_join = rng.uniform(60.0, 110.0)
+        for item in plan:
+            item['t'] = round(rng.uniform(0.0, 2.0), 3)
+            if item['inst'] == joiner:
+                item['t'] = round(t_join, 3)
+        min(plan, key=lambda i: i['t'])['t'] = 0.0
+        others = [n for n in nicks_ if n != joiner]
+        for src in rng.sample(others, rng.randint(1, max(1, len(others) - 1))):
+            plan.append({'t': round(t_join - rng.uniform(1.0, 5.0), 3), 'kind': 'slow', 'src': src, 'dst': joiner,
+                         'extra': round(rng.uniform(0.5, 3.5), 3), 'd': round(rng.uniform(20.0, 70.0), 3)})
+    else:
+        plan += gen.gen_faults(rng, prof, config)
     from . import ops
     plan += ops.gen_ops(rng, prof, config)
     if rng.random() < prof.get('p_crash_near_op', 0.0):
@@ -180,6 +205,46 @@ def build(prop, seed):
                 plan.append({'kind': 'crash', 'inst': '$dst',
                              'trigger': {'wire': 'supvisors.start_args', 'n': rng.randint(1, 4), 'after': op['t'] - 1.0,
                                          'delay': gen.pick(rng, [0.0, 0.0, 0.001, 0.05, 0.5])}})
+    if rng.random() < prof.get('p_heal_disable_burst', 0.0) and len(config['instances']) >= 2:
+        # a partition long enough for both sides to lose each other, a heal, then a burst of disable requests on one side
+        # spread over the seconds in which the other side hand-shakes with it again, then starts asked to the other side
+        nicks_b = [s_['nick'] for s_ in config['instances']]
+        a, b = rng.sample(nicks_b, 2)
+        t_p = rng.uniform(35.0, 50.0)
+        t_h = t_p + rng.uniform(30.0, 45.0)
+        pairs = [[x, y] for x in nicks_b for y in nicks_b if x != y and (x == b) != (y == b)]
+        plan.append({'t': round(t_p, 3), 'kind': 'partition', 'pairs': pairs, 'mode': 'refuse'})
+        plan.append({'t': round(t_h, 3), 'kind': 'heal', 'pairs': None})
+        progs_b = [p_['name'] for g in config['groups'] for p_ in g['programs']]
+        rng.shuffle(progs_b)
+        for i, prog in enumerate(progs_b[:12]):
+            plan.append({'t': round(t_h + 0.5 + 0.8 * i + rng.uniform(0.0, 0.6), 3), 'kind': 'rpc', 'inst': b,
+                         'method': 'supvisors.disable', 'args': [prog, False]})
+        for i, ns in enumerate(rng.sample(gen.namespecs_of(config), min(8, len(gen.namespecs_of(config))))):
+            plan.append({'t': round(t_h + 50.0 + 3.0 * i, 3), 'kind': 'rpc', 'inst': a,
+                         'method': 'supvisors.start_process', 'args': [gen.pick(rng, [0, 1, 2, 4, 5]), ns, '', False]})
+    if prof.get('p_disable_in_handshake'):
+        # a program disabled / enabled on an instance while its peers are still hand-shaking with it (late boot, restart)
+        progs = [p_['name'] for g in config['groups'] for p_ in g['programs']]
+        for item in list(plan):
+            if 't' in item and item['kind'] == 'heal' and progs and rng.random() < prof['p_disable_in_handshake']:
+                # after a heal both sides hand-shake again while each of them is still in OPERATION
+                nicks_h = [s_['nick'] for s_ in config['instances']]
+                for _k in range(rng.randint(1, 3)):
+                    plan.append({'t': round(item['t'] + rng.uniform(2.0, 22.0), 3), 'kind': 'rpc',
+                                 'inst': gen.pick(rng, nicks_h),
+                                 'method': 'supvisors.' + gen.pick(rng, ['disable', 'disable', 'enable']),
+                                 'args': [gen.pick(rng, progs), False]})
+                continue
+            if 't' not in item or item['kind'] not in ('boot', 'restart') or not progs:
+                continue
+            if item['kind'] == 'boot' and item['t'] < 5.0:
+                continue
+            if rng.random() < prof['p_disable_in_handshake']:
+                t_up = item['t'] + (item.get('delay', 0.0) if item['kind'] == 'restart' else 0.0)
+                plan.append({'t': round(t_up + rng.uniform(1.0, 14.0), 3), 'kind': 'rpc', 'inst': item['inst'],
+                             'method': 'supvisors.' + gen.pick(rng, ['disable', 'disable', 'enable']),
+                             'args': [gen.pick(rng, progs), False]})
     for _ in range(gen.pick(rng, prof.get('ops_pairs', [0]))):
         # a request creating jobs on one instance, closely followed by restart_sequence on another one
         nicks_ = [s_['nick'] for s_ in config['instances']]
